@@ -88,7 +88,11 @@ var devCount int
 // that made the deferred call run is still in progress). This is the dynamic signature
 // of F-C07-2: gomacro keeps a single current panic per goroutine, so that recover also
 // cancels the outer panic.
-func nestedRecover(trace []string) bool {
+//
+// With panic(nil) (go 1.18 semantics) a recover() that stops a panic returns nil and is
+// recorded as "recovered-nil": in programs that use panic(nil) (tag panic-value:nil) a
+// nil recover at such a moment counts as well.
+func nestedRecover(trace []string, nilPanics bool) bool {
 	active := 0
 	for _, line := range trace {
 		f := strings.Fields(line)
@@ -105,13 +109,15 @@ func nestedRecover(trace []string) bool {
 			if active > 0 {
 				active--
 			}
+		case nilPanics && f[1] == `"recovered-nil"` && active >= 2:
+			return true
 		}
 	}
 	return false
 }
 
 func known(p gobatch.Program, got, want gobatch.Result) string {
-	if nestedRecover(want.Trace) && rec.Known("F-C07-2") {
+	if nestedRecover(want.Trace, p.HasTag("panic-value:nil")) && rec.Known("F-C07-2") {
 		return "F-C07-2"
 	}
 	if devDump != "" {
